@@ -20,11 +20,14 @@ UNITS = [
     Unit(name="C09.set_train_peripheral_range", src="units/C09/train_speed.c", defines=["VP_H_PERIPHERAL_RANGE"], functions=["bidib_set_train_peripheral"], props=["C09"],
          no_dfcc=True, remove_bodies=[f for f in _hs if f != "bidib_set_train_peripheral"], extra_flags=["--nondet-static", "--unwind", "34"], timeout=900, covers=1, min_obligations=6,
          stubbed_contracts=["bidib_state_get_train_ref", "bidib_state_get_board_ref", "bidib_send_cs_drive_intern"], note="every state value 2..255: rejected before any lookup"),
-    Unit(name="C09.set_train_peripheral", src="units/C09/train_speed.c", defines=["VP_H_PERIPHERAL"], functions=["bidib_set_train_peripheral", "bidib_get_current_train_peripheral_bits"], props=["C09"],
-         no_dfcc=True, kind="bounded", bound="train with exactly 3 configured functions on arbitrary distinct bits (0..4, 8..31); loops unwound completely for that size",
-         remove_bodies=[f for f in _hs if f not in ("bidib_set_train_peripheral", "bidib_get_current_train_peripheral_bits")],
-         extra_flags=["--nondet-static", "--unwind", "34"], timeout=3000, tier="thorough", covers=1, min_obligations=8,
-         stubbed_contracts=["bidib_state_get_train_ref", "bidib_state_get_board_ref", "bidib_state_get_train_state_ref", "bidib_state_get_train_peripheral_state_by_bit", "bidib_send_cs_drive_intern"]),
+    Unit(name="C09.function_bits", src="units/C09/periph.c", defines=["VP_H_BITS"], functions=["bidib_get_current_train_peripheral_bits"], props=["C09"], no_dfcc=True, kind="bounded",
+         bound="train with exactly 3 configured functions on arbitrary distinct bits (0..4, 8..31); every range within one group byte; loops unwound completely",
+         remove_bodies=[f for f in _hs if f != "bidib_get_current_train_peripheral_bits"], extra_flags=["--nondet-static", "--unwind", "34"], timeout=600, covers=2, min_obligations=8,
+         stubbed_contracts=["bidib_state_get_train_peripheral_state_by_bit (state of that bit)"]),
+    Unit(name="C09.set_train_peripheral", src="units/C09/periph.c", defines=["VP_H_CMD"], functions=["bidib_set_train_peripheral"], props=["C09"], no_dfcc=True, kind="bounded",
+         bound="train with exactly 3 configured functions on arbitrary distinct bits; loops unwound completely",
+         remove_bodies=[f for f in _hs if f != "bidib_set_train_peripheral"], stub_srcs=["units/C09/periph_stub.c"], extra_flags=["--nondet-static", "--unwind", "34"], timeout=600, covers=2, min_obligations=8,
+         stubbed_contracts=["bidib_get_current_train_peripheral_bits (contract: records the range, arbitrary group byte; proved in C09.function_bits)", "bidib_state_get_train_ref", "bidib_state_get_board_ref", "bidib_send_cs_drive_intern"]),
 ] + [
     Unit(name="C09." + n, src="units/C09/accessory.c", defines=["VP_KIND=%d" % k], functions=fns, props=["C09"], no_dfcc=True, kind="bounded",
          bound="configuration of 2 boards x (1 board accessory + 1 DCC accessory | 1 peripheral), 2 aspects per mapping, 2 port values per DCC aspect; ids single arbitrary characters, content arbitrary; loops unwound completely",
